@@ -37,7 +37,10 @@ TRUSTED = ["Coq 8.16.1 kernel and vm_compute", "translators/t_egconst.py", "harn
 ASSUMPTIONS = ["base learner is exact over the enumerated class (the property's premise)",
                "weights_ is renormalised exactly (largest entry := 1 - sum of the others, a change < 1e-12) before it "
                "is given to the model, so that the theorems' premise sum Q = 1 holds for the numbers evaluated",
-               "float arithmetic of the implementation agrees with exact arithmetic to 1e-6 on these inputs"]
+               "float arithmetic of the implementation agrees with exact arithmetic to 1e-6 on these inputs",
+               "in the few cases (tag compat:False, about 4%) where the float gamma of a ratio-1 moment is not exactly "
+               "antisymmetric (rounding in the matrix product), gap_code >= gap_true is not covered by "
+               "C08_gap_code_is_true_gap and is only checked numerically (oracle i)"]
 RULE = ("cases: random datasets n<=16, 2..4 distinct feature rows, 2..3 groups, five parity moments x {difference, "
         "ratio} bounds, eps, max_iter, run_linprog_step, eta0, nu; non-trivial = more than one iteration ran or the "
         "returned classifier mixes at least two hypotheses or the projected multiplier is non-zero, and the gap is recomputed "
